@@ -288,6 +288,9 @@ func shortType(t types.Type) string {
 }
 
 func (e *Enc) sortOf(t types.Type) string {
+	if n, ok := t.(*types.Named); ok && n.Obj().Name() == "mathint" && n.Obj().Pkg() == nil {
+		return "Int"
+	}
 	switch u := t.Underlying().(type) {
 	case *types.Basic:
 		switch {
